@@ -139,7 +139,7 @@ def run (args : List String) : IO UInt32 := do
     updRefreshCreated := yes kv "updRefreshCreated", updRefreshUpdated := yes kv "updRefreshUpdated",
     updRefreshValue := yes kv "updRefreshValue", updRefreshExpireOnFlag := yes kv "updRefreshExpireOnFlag",
     typeChangeDetected := yes kv "typeChangeDetected", valueShared := yes kv "valueShared",
-    flagsSticky := yes kv "flagsSticky" }
+    flagsSticky := yes kv "flagsSticky", setVoidClearsTyped := yes kv "setVoidClearsTyped" }
   lineLoop step { cfg := cfg, s := St.init }
   return 0
 
